@@ -274,6 +274,9 @@ func checkC05(c *Check) {
 	cases := []BatchCase{}
 	addBash := func(prefix string, bcs []BashCase) {
 		for _, bc := range bcs {
+			if bc.AppHook != nil {
+				continue // command calls are outside C05's fragment (C18; the model runs no programs)
+			}
 			cases = append(cases, BatchCase{Key: prefix + bc.Key, Prog: bc.Prog, MayReject: bc.MayReject})
 		}
 	}
